@@ -1,13 +1,13 @@
 package props
 
 import (
-	"io"
-	"testing/iotest"
 	"bytes"
 	"fmt"
+	"io"
 	"math/bits"
 	"sort"
 	"sync"
+	"testing/iotest"
 
 	"github.com/Tom-Johnston/mamba/graph"
 	"github.com/Tom-Johnston/mamba/graph/search"
@@ -30,6 +30,10 @@ func (p predSpec) String() string {
 	switch p.Kind {
 	case "none":
 		return "true"
+	case "false":
+		return "false"
+	case "maxn":
+		return fmt.Sprintf("vertices<=%d", p.K)
 	case "maxdeg":
 		return fmt.Sprintf("maxdeg<=%d", p.K)
 	case "kfree":
@@ -52,6 +56,10 @@ func (p predSpec) holds(g *oracle.G) bool {
 	switch p.Kind {
 	case "none":
 		return true
+	case "false": // the empty class is hereditary too: nothing may be yielded, not even the null graph
+		return false
+	case "maxn":
+		return g.N <= p.K
 	case "maxdeg":
 		for _, d := range g.Degs() {
 			if d > p.K {
@@ -170,6 +178,11 @@ func genPredSpec(t *rapid.T, depth int) predSpec {
 		kinds = append(kinds, "and", "or")
 	}
 	p := predSpec{Kind: rapid.SampledFrom(kinds).Draw(t, "pred")}
+	if rare(t, "degenerate", 15) {
+		p.Kind = rapid.SampledFrom([]string{"false", "maxn"}).Draw(t, "degeneratekind")
+		p.K = rapid.IntRange(0, 3).Draw(t, "maxn")
+		return p
+	}
 	switch p.Kind {
 	case "maxdeg", "comaxdeg":
 		p.K = rapid.IntRange(0, 4).Draw(t, "d")
@@ -447,6 +460,23 @@ func enumSearchCfgs(yield func(searchCfg) bool) {
 			}
 		}
 	}
+	// degenerate hereditary classes on 0..3 vertices: the empty class (nothing may be yielded, not even the null graph),
+	// "at most K vertices" (K = 0 accepts the null graph and rejects K1), K1-free
+	for n := 0; n <= 3; n++ {
+		for m := 1; m <= 2; m++ {
+			for _, p := range []predSpec{{Kind: "false"}, {Kind: "maxn", K: 0}, {Kind: "maxn", K: 1}, {Kind: "maxn", K: 2}, {Kind: "kfree", K: 1}} {
+				for _, pl := range []string{"prune", "preprune"} {
+					idx++
+					if idx%NShards != Shard {
+						continue
+					}
+					if !yield(searchCfg{N: n, M: m, Pred: p, Placement: pl}) {
+						return
+					}
+				}
+			}
+		}
+	}
 	// larger n under strong pruning (oracle: extension of the predicate-satisfying classes)
 	for n := 9; n <= sz(10, 11); n++ {
 		for pi, p := range strongPreds {
@@ -635,7 +665,9 @@ func checkSaveLoadCase(c saveLoadCase, rec *Rec) error {
 			b := blobs[op.I]
 			l := &live{pos: b.pos, done: b.done, bad: new(error)}
 			pre, post := c.Cfg.pruneFuncs(l.bad)
-			if p := try(func() { l.it = search.Load(chunkedReader(append([]byte{}, b.data...), len(b.data)+op.I+l.pos), pre, post) }); p != nil {
+			if p := try(func() {
+				l.it = search.Load(chunkedReader(append([]byte{}, b.data...), len(b.data)+op.I+l.pos), pre, post)
+			}); p != nil {
 				return fmt.Errorf("%s: Load of the state saved at position %d panicked: %v", desc, b.pos, p)
 			}
 			iters = append(iters, l)
@@ -692,6 +724,8 @@ type saveEveryCase struct {
 	Stride int // 0 or 1: every position; otherwise only positions k with k % Stride == Offset (large configurations are split)
 	Offset int
 	Prefix int // 0: the loaded iterator is drained; otherwise it is compared on its next Prefix graphs (drained at every 16th position)
+	// DrainEvery: with Prefix > 0, drain the loaded iterator completely at every DrainEvery-th position (0 = 16)
+	DrainEvery int `json:",omitempty"`
 }
 
 // checkSaveEveryPosition: save at EVERY position k of the run (before the first Next, after each graph, after exhaustion)
@@ -727,7 +761,7 @@ func checkSaveEveryPosition(c saveEveryCase, rec *Rec) error {
 			return fmt.Errorf("%s: Load at position %d panicked: %v", desc, k, p)
 		}
 		for pos := min(k, len(ref)); ; pos++ {
-			if c.Prefix > 0 && (k/max(c.Stride, 1))%16 != 0 && pos >= k+c.Prefix {
+			if c.Prefix > 0 && (k/max(c.Stride, 1))%max(16, c.DrainEvery) != 0 && pos >= k+c.Prefix {
 				break // a wrong resume shows at once; the full remainder is compared at every 16th position of the slice
 			}
 			var ok bool
@@ -781,6 +815,23 @@ func enumSaveEvery(yield func(saveEveryCase) bool) {
 					return
 				}
 			}
+		}
+	}
+	// every save position of All(8) (12347 graphs; choice stacks of several hundred entries) and of one share of a split
+	// of it; thorough: every position of All(9) (274668 graphs). The loaded iterator is compared on its next two graphs
+	// and drained completely at every 1024th (16384th) position.
+	big := []saveEveryCase{{Cfg: searchCfg{N: 8, M: 1, Pred: predSpec{Kind: "none"}, Placement: "prune"}, Prefix: 2, DrainEvery: 1024},
+		{Cfg: searchCfg{N: 8, M: 3, Pred: predSpec{Kind: "none"}, Placement: "prune"}, A: 1, Prefix: 2, DrainEvery: 1024}}
+	if Thorough {
+		big = append(big, saveEveryCase{Cfg: searchCfg{N: 9, M: 1, Pred: predSpec{Kind: "none"}, Placement: "prune"}, Prefix: 2, DrainEvery: 16384})
+	}
+	for _, bc := range big {
+		idx++
+		if idx%NShards != Shard {
+			continue
+		}
+		if !yield(bc) {
+			return
 		}
 	}
 	for n := 0; n <= sz(5, 6); n++ {
